@@ -549,7 +549,8 @@ private:
                 if (rec_K.empty() || rec_K.back() < p.instant) {
                     // ended before the instant for another reason
                     if (closed_reason == 0x08 || closed_reason == 0x22)
-                        viol("C21", "C21:" + kind + ":link_lost_before_instant", head + "connection closed before the instant without injected faults");
+                        viol("C21", "C21:" + kind + ":link_lost_before_instant" + (data_pending ? ":data_received_while_pending" : ""),
+                             head + "connection closed before the instant without injected faults; " + std::to_string(data_pending) + " data PDU(s) were stored in the receive ring while the indication was pending");
                     else M.cls("not_judged_closed_before_instant");
                     continue;
                 }
@@ -558,9 +559,12 @@ private:
 
             // the event with counter == instant must have been listened to
             M.eval();
-            bool listened = false;
-            for (std::size_t i = static_cast<std::size_t>(idx); i < recs.size() && rec_K[i] == p.instant; ++i)
+            bool listened = false, still_pending = false;
+            for (std::size_t i = static_cast<std::size_t>(idx); i < recs.size() && rec_K[i] == p.instant; ++i) {
                 if (recs[i].outcome != sim::o_disarmed && recs[i].outcome != sim::o_pending) listened = true;
+                if (recs[i].outcome == sim::o_pending && i + 1 == recs.size()) still_pending = true;
+            }
+            if (!listened && still_pending) { M.cls("not_judged_scenario_too_short"); continue; }    // the scenario ended while the instant event was scheduled
             if (rec_K[static_cast<std::size_t>(idx)] != p.instant || !listened) {
                 viol("C21", "C21:" + kind + ":instant_event_skipped",
                      head + "no connection event with counter == instant was scheduled (next scheduled: central event " + std::to_string(rec_K[static_cast<std::size_t>(idx)]) + ")");
